@@ -1,0 +1,135 @@
+//go:build verif
+
+package radius
+
+// Verification hooks for the accounting manager (property C08). Compiled only with -tags verif.
+// Accessors, single-step entry points for the background loops, and crash-point injection.
+
+import (
+	"fmt"
+	"os"
+	"sort"
+	"strconv"
+	"strings"
+	"sync"
+	"sync/atomic"
+)
+
+var (
+	verifCrashMu   sync.Mutex
+	verifCrashName string // "" = disarmed, "*" = any marker
+	verifCrashLeft int
+)
+
+func init() {
+	// VERIF_CRASH_AT=name#k : the k-th hit of marker "name" kills the process.
+	if v := os.Getenv("VERIF_CRASH_AT"); v != "" {
+		name, k := v, 1
+		if i := strings.LastIndexByte(v, '#'); i >= 0 {
+			name = v[:i]
+			if n, err := strconv.Atoi(v[i+1:]); err == nil && n > 0 {
+				k = n
+			}
+		}
+		VerifArmCrash(name, k)
+	}
+}
+
+// VerifArmCrash arms (k > 0) or disarms (k <= 0) the crash injector: the k-th hit from now of the
+// marker called name ("*" matches every marker) terminates the process.
+func VerifArmCrash(name string, k int) {
+	verifCrashMu.Lock()
+	defer verifCrashMu.Unlock()
+	if k <= 0 {
+		verifCrashName, verifCrashLeft = "", 0
+		return
+	}
+	verifCrashName, verifCrashLeft = name, k
+}
+
+// verifCrashPoint is called at every persistence/transmit step of accounting.go.
+// When armed it ends the process at once: no deferred calls, no flushing (a real process death).
+func verifCrashPoint(name string) {
+	verifCrashMu.Lock()
+	if verifCrashLeft > 0 && (verifCrashName == "*" || verifCrashName == name) {
+		verifCrashLeft--
+		if verifCrashLeft == 0 {
+			os.Exit(137)
+		}
+	}
+	verifCrashMu.Unlock()
+}
+
+// VerifStartNoLoops is Start() without the two background goroutines: it marks the manager
+// running, creates the persistence directory and runs the orphan recovery.
+func (am *AccountingManager) VerifStartNoLoops() error {
+	if !atomic.CompareAndSwapInt32(&am.running, 0, 1) {
+		return fmt.Errorf("accounting manager already running")
+	}
+	if err := os.MkdirAll(am.persistPath, 0755); err != nil {
+		return err
+	}
+	return am.recoverOrphanedSessions()
+}
+
+// VerifProcessQueueOnce performs one iteration of pendingRecordProcessor's queue branch
+// (non-blocking). It reports whether a record was taken from the queue.
+func (am *AccountingManager) VerifProcessQueueOnce() bool {
+	select {
+	case record := <-am.pendingQueue:
+		am.processPendingRecord(record)
+		return true
+	default:
+		return false
+	}
+}
+
+// VerifRetryTickOnce performs one iteration of pendingRecordProcessor's ticker branch.
+func (am *AccountingManager) VerifRetryTickOnce() { am.retryPendingRecords() }
+
+// VerifInterimTickOnce performs one iteration of interimUpdateLoop's ticker branch.
+func (am *AccountingManager) VerifInterimTickOnce() {
+	if am.config.InterimEnabled {
+		am.sendInterimUpdates()
+	}
+}
+
+// VerifPendingInfo is a snapshot of one pending record.
+type VerifPendingInfo struct {
+	ID         string
+	Request    AcctRequest
+	RetryCount int
+}
+
+// VerifPending returns the pending-record map, sorted by record ID.
+func (am *AccountingManager) VerifPending() []VerifPendingInfo {
+	am.pendingMu.RLock()
+	defer am.pendingMu.RUnlock()
+	out := make([]VerifPendingInfo, 0, len(am.pendingRecords))
+	for id, r := range am.pendingRecords {
+		out = append(out, VerifPendingInfo{ID: id, Request: *r.Request, RetryCount: r.RetryCount})
+	}
+	sort.Slice(out, func(i, j int) bool { return out[i].ID < out[j].ID })
+	return out
+}
+
+// VerifQueue returns the records waiting in the pending channel, in channel order.
+// Only for use while no background loop is running (the channel is emptied and refilled).
+func (am *AccountingManager) VerifQueue() []VerifPendingInfo {
+	var recs []*PendingAcctRecord
+	for {
+		select {
+		case r := <-am.pendingQueue:
+			recs = append(recs, r)
+			continue
+		default:
+		}
+		break
+	}
+	out := make([]VerifPendingInfo, 0, len(recs))
+	for _, r := range recs {
+		am.pendingQueue <- r
+		out = append(out, VerifPendingInfo{ID: r.ID, Request: *r.Request, RetryCount: r.RetryCount})
+	}
+	return out
+}
